@@ -268,15 +268,15 @@ Proof. exact (@plan_reduced_row_is_unknowns). Qed.
 Print Assumptions C02_steady_plan_columns.
 
 Theorem C02_steady_plan_entry : forall (V : Type) (d : label -> V) (wrt : list Z) (ml mc : list bool) (j : nat) (u : label) (dflt : V),
-  length ml = length wrt ->
+  List.length ml = List.length wrt ->
   nth_error (unknown_labels wrt ml mc) j = Some u ->
   nth j (reduce_row ml mc (map d (full_labels wrt))) dflt = d u.
 Proof. exact (@reduced_entry_is_unknown). Qed.
 Print Assumptions C02_steady_plan_entry.
 
 Theorem C02_steady_column_index : forall (V : Type) (ml mc : list bool) (rowL rowC : list V) (d : V),
-  length ml = length rowL -> length mc = length rowC ->
-  gather (column_index ml mc (length rowL)) (rowL ++ rowC) d = reduce_row ml mc (rowL ++ rowC).
+  List.length ml = List.length rowL -> List.length mc = List.length rowC ->
+  gather (column_index ml mc (List.length rowL)) (rowL ++ rowC) d = reduce_row ml mc (rowL ++ rowC).
 Proof. exact (@column_index_correct). Qed.
 Print Assumptions C02_steady_column_index.
 
@@ -293,8 +293,8 @@ Theorem C02_terminal_rows_every_call : forall (V : Type) (zero : V) (add : V -> 
   (forall x, add x zero = x) ->
   forall (S : list nat) pairs calls st,
   (st = None \/ st = Some S) ->
-  Forall (fun call => fst (fst call) = S /\ zero_outside zero S (snd call)) calls ->
-  Forall2 (fun out call => forall r c, out r c = corrected_all add pairs (snd (fst call)) (snd call) r c)
+  List.Forall (fun call => fst (fst call) = S /\ zero_outside zero S (snd call)) calls ->
+  List.Forall2 (fun out call => forall r c, out r c = corrected_all add pairs (snd (fst call)) (snd call) r c)
           (trun add st pairs calls) calls.
 Proof. exact (@trun_structural_valid). Qed.
 Print Assumptions C02_terminal_rows_every_call.
@@ -307,7 +307,7 @@ Theorem C02_terminal_value_pattern_refuted :
   exists (pairs : list (nat * nat)) (t1 t2 : coo Z) (regular : nat -> nat -> Z),
     map (fun e => fst e) t1 = map (fun e => fst e) t2 /\
     let addm (t : coo Z) : nat -> nat -> Z :=
-        fun r c => fold_right Z.add 0%Z (map (fun e => if Nat.eqb (fst (fst e)) r && Nat.eqb (snd (fst e)) c then snd e else 0%Z) t) in
+        fun r c => fold_right Z.add 0%Z (map (fun e => if andb (Nat.eqb (fst (fst e)) r) (Nat.eqb (snd (fst e)) c) then snd e else 0%Z) t) in
     let calls := [ (nonzero_rows (Z.eqb 0) t1, regular, addm t1); (nonzero_rows (Z.eqb 0) t2, regular, addm t2) ] in
     exists out1 out2, trun Z.add None pairs calls = [out1; out2] /\
       out2 0%nat 0%nat <> corrected_all Z.add pairs regular (addm t2) 0%nat 0%nat.
